@@ -728,6 +728,60 @@ fn cmd_pagetree(maxlen: usize) {
     println!("{{\"cmd\":\"pagetree\",\"bound\":\"kids lists of length <= {maxlen} over 3 leaves and 3 /Pages nodes (shared nodes, repeats, cycles); 8 attribute placements; chains of 1..40 levels\",\"evaluated\":{},\"disagreement_count\":{},\"disagreements\":[{}]}}", evaluated, nbad + cyc_n, { bad.extend(cyc_bad); bad.join(",") });
 }
 
+// C26 Eb: (1) CMap text written by hand from ISO 32000-1 9.10.3 (bfchar, bfrange in offset and array form, code-space ranges of
+// 1..4 bytes, ranges that cross a 256-code row and need a carry): every code maps to the Unicode the CMap defines, codes outside
+// the ranges and outside the code space are not mapped. (2) ToUnicodeCMapBuilder: every set of <= 3 mappings over a small code /
+// character alphabet -> build() -> CMap::parse -> map + to_unicode gives the mapping back.
+fn cmd_cmap(nmap: usize) {
+    use oxidize_pdf::text::cmap::{CMap, ToUnicodeCMapBuilder};
+    let mut evaluated = 0u64; let mut bad: Vec<String> = vec![];
+    let utf16be = |s: &str| -> Vec<u8> { s.encode_utf16().flat_map(|u| u.to_be_bytes()).collect() };
+    let hex = |b: &[u8]| -> String { b.iter().map(|x| format!("{x:02X}")).collect() };
+    // (1) hand-written CMaps
+    for width in 1usize..=4 {
+        let lo = vec![0u8; width]; let hi = vec![0xFFu8; width];
+        // range [..00F0, ..010F] -> U+0430.. (crosses a row when width >= 2), bfchar ..0005 -> "fi", array range ..0020..0022
+        let code = |v: u32| -> Vec<u8> { v.to_be_bytes()[4 - width..].to_vec() };
+        let (r_lo, r_hi) = if width == 1 { (0x10u32, 0x2F) } else { (0xF0u32, 0x10F) };
+        let text = format!("/CIDInit /ProcSet findresource begin\n12 dict begin\nbegincmap\n1 begincodespacerange\n<{}> <{}>\nendcodespacerange\n1 beginbfchar\n<{}> <00660069>\nendbfchar\n2 beginbfrange\n<{}> <{}> <04F0>\n<{}> <{}> [<0041> <D83DDE00> <0042>]\nendbfrange\nendcmap\n",
+            hex(&lo), hex(&hi), hex(&code(5)), hex(&code(r_lo)), hex(&code(r_hi)), hex(&code(0x40)), hex(&code(0x42)));
+        let cm = match CMap::parse(text.as_bytes()) { Ok(c) => c, Err(e) => { bad.push(format!("{{\"what\":\"parse of a {width}-byte CMap failed\",\"error\":{}}}", js(&e.to_string()))); continue; } };
+        let uni = |c: &[u8]| -> Option<String> { cm.map(c).and_then(|m| cm.to_unicode(&m)) };
+        for v in r_lo..=r_hi {
+            evaluated += 1;
+            let want: String = char::from_u32(0x4F0 + (v - r_lo)).unwrap().to_string();
+            if uni(&code(v)).as_deref() != Some(want.as_str()) && bad.len() < 8 { bad.push(format!("{{\"width\":{width},\"code\":\"{}\",\"expected\":{},\"got\":{}}}", hex(&code(v)), js(&want), js(&format!("{:?}", uni(&code(v)))))); }
+        }
+        for (v, want) in [(5u32, "fi"), (0x40, "A"), (0x41, "\u{1F600}"), (0x42, "B")] {
+            evaluated += 1;
+            if uni(&code(v)).as_deref() != Some(want) && bad.len() < 8 { bad.push(format!("{{\"width\":{width},\"code\":\"{}\",\"expected\":{},\"got\":{}}}", hex(&code(v)), js(want), js(&format!("{:?}", uni(&code(v)))))); }
+        }
+        // neighbours of the ranges are not mapped by them
+        for v in [r_lo - 1, r_hi + 1, 0x3F, 0x43, 4, 6] {
+            evaluated += 1;
+            if let Some(u) = uni(&code(v)) { if bad.len() < 8 { bad.push(format!("{{\"width\":{width},\"code\":\"{}\",\"expected\":\"unmapped\",\"got\":{}}}", hex(&code(v)), js(&u))); } }
+        }
+        let _ = utf16be;
+    }
+    // (2) builder round trip
+    let chars = ["A", "\u{e9}", "\u{ffff}", "\u{10000}", "\u{10FFFF}", "fi"];
+    for code_len in [1usize, 2] {
+        let codes: Vec<Vec<u8>> = if code_len == 1 { vec![vec![0x00], vec![0x41], vec![0xFF], vec![0x42]] } else { vec![vec![0, 0], vec![0, 0x41], vec![0, 0xFF], vec![1, 0], vec![0xFF, 0xFF]] };
+        let mut sets: Vec<Vec<(usize, usize)>> = vec![vec![]];
+        for _ in 0..nmap { let mut nxt = vec![]; for st in &sets { for ci in 0..codes.len() { if st.iter().any(|m| m.0 == ci) || st.last().map(|m| m.0 > ci).unwrap_or(false) { continue; } for ui in 0..chars.len() { let mut x = st.clone(); x.push((ci, ui)); nxt.push(x); } } } sets.extend(nxt); }
+        sets.sort(); sets.dedup();
+        for st in sets.iter().filter(|s| !s.is_empty()) {
+            evaluated += 1;
+            let mut b = ToUnicodeCMapBuilder::new(code_len);
+            for (ci, ui) in st { b.add_mapping(codes[*ci].clone(), chars[*ui]); }
+            let data = b.build();
+            let ok = match CMap::parse(&data) { Ok(cm) => st.iter().all(|(ci, ui)| cm.map(&codes[*ci]).and_then(|m| cm.to_unicode(&m)).as_deref() == Some(chars[*ui])), Err(_) => false };
+            if !ok && bad.len() < 8 { bad.push(format!("{{\"code_length\":{code_len},\"mappings\":{},\"cmap\":{}}}", js(&format!("{:?}", st.iter().map(|(c, u)| (hex(&codes[*c]), chars[*u])).collect::<Vec<_>>())), js(&String::from_utf8_lossy(&data).chars().take(300).collect::<String>()))); }
+        }
+    }
+    println!("{{\"cmd\":\"cmap\",\"bound\":\"hand-written CMaps with 1..4-byte codes (bfchar, bfrange offset form crossing a row, bfrange array form incl. a surrogate pair); ToUnicodeCMapBuilder with every set of <= {nmap} mappings over 4-5 codes x 6 strings\",\"evaluated\":{},\"disagreements\":[{}]}}", evaluated, bad.join(","));
+}
+
 fn cmd_fmt() {
     // Ec: the concrete contracts of the R6 formatting stubs used by Verus units, over all 256 bytes
     let hd = |n: u8| if n < 10 { b'0' + n } else { b'A' + n - 10 };
@@ -1219,6 +1273,7 @@ fn main() {
         Some("a85hex-roundtrip") => cmd_a85hex_roundtrip(args.get(2).and_then(|s| s.parse().ok()).unwrap_or(4)),
         Some("fmt") => cmd_fmt(),
         Some("opnames") => cmd_opnames(),
+        Some("cmap") => cmd_cmap(args.get(2).and_then(|s| s.parse().ok()).unwrap_or(2)),
         Some("pagetree") => cmd_pagetree(args.get(2).and_then(|s| s.parse().ok()).unwrap_or(2)),
         Some("hostile-inputs") => cmd_hostile_inputs(),
         Some("hostile-case") => cmd_hostile_case(args[2].parse().unwrap()),
